@@ -537,7 +537,11 @@ func (g *gen) genPkg(pkg *Pkg, earlier []*Pkg) {
 			if vd.Site == nil {
 				continue
 			}
-			vd.Grouped = g.chance("vargroup", 15)
+			vd.Grouped = g.chance("vargroup", 25)
+			// a second spec in the same group: `var ( g0 T; g0s = T{} )` - one GenDecl, two sites
+			if vd.Grouped && g.chance("vargroupSecond", 60) {
+				vd.Site2 = g.genPkgVarSite(pkg, vd.Name+"s", types, earlier)
+			}
 		}
 		decls = g.add(decls, vd)
 	}
